@@ -618,7 +618,25 @@ def _check_property(prop, tier, seed, sel, scratch, t_start):
                 except Exception:
                     pass
 
-    write_evidence(prop, tier, seed, sel, results, violations, known, inconclusive, time.time() - t_start)
+    extra = {}
+    if prop == "C13" and not os.environ.get("VERIF_HARNESSES"):
+        # arithmetic lemma for the churn bound (z3, cross-checked with cvc5)
+        try:
+            p = subprocess.run(["/opt/veriftools/pyvenv/bin/python", str(VERIF / "smt" / "growth_bound.py")], stdout=subprocess.PIPE, stderr=subprocess.PIPE, text=True, timeout=600)
+            lemma = json.loads(p.stdout.strip().splitlines()[-1]) if p.stdout.strip() else {"error": p.stderr[-300:]}
+            lrc = p.returncode
+        except Exception as e:  # noqa
+            lemma, lrc = {"error": str(e)}, 2
+        extra["growth_lemma"] = lemma
+        log("  growth lemma (z3/cvc5): rc=%d %s" % (lrc, json.dumps(lemma.get("queries", lemma))[:300]))
+        if lrc == 1:
+            (VERIF / "replays").mkdir(exist_ok=True)
+            path = VERIF / "replays" / "C13-growth-lemma.json"
+            path.write_text(json.dumps(lemma, indent=1))
+            violations.append(("growth_lemma", [{"desc": "hashbrown rounding of 2*len reaches max(4*len,16) or stays below 2*len", "loc": "smt/growth_bound.py"}], path, ([], "z3", "lemma counterexample confirmed by the concrete cross-check", "growth_lemma")))
+        elif lrc != 0:
+            inconclusive.append(("growth_lemma", ["SMT lemma inconclusive: %s" % json.dumps(lemma)[:300]]))
+    write_evidence(prop, tier, seed, sel, results, violations, known, inconclusive, time.time() - t_start, extra)
     for name, f, kf in known:
         log("KNOWN-FINDING: property=%s %s [%s: %s]" % (prop, kf["text"], name, f["desc"]))
     for name, fails in also_failing:
@@ -637,7 +655,7 @@ def _check_property(prop, tier, seed, sel, scratch, t_start):
     return 0
 
 
-def write_evidence(prop, tier, seed, sel, results, violations, known, inconclusive, wall):
+def write_evidence(prop, tier, seed, sel, results, violations, known, inconclusive, wall, extra=None):
     checks_total = sum(len(r["checks"]) for r in results.values())
     tagged_ok = 0
     covers_ok = 0
@@ -681,6 +699,7 @@ def write_evidence(prop, tier, seed, sel, results, violations, known, inconclusi
             "inconclusive": [{"harness": n, "notes": [x[:300] for x in notes]} for n, notes in inconclusive],
             "known_findings": [{"harness": n, "check": f["desc"], "finding": kf["text"]} for n, f, kf in known],
             "exhaustive": False,
+            **(extra or {}),
         },
         "assumptions": ASSUMPTIONS,
         "wall_s": round(wall, 1),
